@@ -221,6 +221,66 @@ def check_weights(ctx, ck):
     ck.ob('R-SIB.weight', 'payload', ok, where, 'adds %s' % sorted(seen)[:1])
 
 
+def check_option_parameter(ctx, ck, rule='R-KIND.option-parameter'):
+    """In main, a loop over `args.<family>_<p>` (a registered option) that calls a package constructor / function
+    having a parameter <p> AND a parameter <q> for which a sibling option `<family>_<q>` exists must hand its value
+    to <p>: a positional slip (`Skin_Effect_Load(w, res)` in the resistivity loop) puts the number into <q>."""
+    from ..cli import registered_options
+    m = ctx.model
+    mainf = ctx.flat('mininec.main')
+    dests = {o.dest for o in registered_options(m.func('mininec.main')).values()} | \
+            {o.dest for o in registered_options(mainf).values()}
+    n = 0
+    for l in [x for x in ast.walk(mainf.node) if isinstance(x, ast.For)]:
+        it = l.iter
+        d = None
+        if isinstance(it, ast.Attribute) and isinstance(it.value, ast.Name) and it.value.id == 'args':
+            d = it.attr
+        elif isinstance(it, ast.Call) and isinstance(it.func, ast.Name) and it.func.id == 'getattr' and len(it.args) >= 2 \
+                and isinstance(it.args[1], ast.Constant):
+            d = it.args[1].value
+        elif isinstance(it, ast.BoolOp) and isinstance(it.values[0], ast.Attribute) and norm(it.values[0].value) == 'args':
+            d = it.values[0].attr
+        if d is None or d not in dests:
+            continue
+        for c in [x for b in l.body for x in ast.walk(b) if isinstance(x, ast.Call)]:
+            nm = dotted(c.func)
+            ci = m.classes.get(nm.split('.')[-1]) if nm else None
+            g = m.resolve_method(ci.name, '__init__') if ci is not None else None
+            if g is None:
+                continue
+            params = list(g.all_params)[1:]
+            ps = [p_ for p_ in params if d == p_ or d.endswith('_' + p_)]
+            if len(ps) != 1:
+                continue
+            p_ = ps[0]
+            fam = d[:len(d) - len(p_)]
+            sib = [q_ for q_ in params if q_ != p_ and fam + q_ in dests]
+            if not sib:
+                continue
+            if any(isinstance(a_, ast.Starred) for a_ in c.args) or any(k_.arg is None for k_ in c.keywords):
+                raise AnalysisError('%s: arguments of %s are not written out' % (mainf.qual, norm(c)[:60]))
+            pos = [x.arg for x in g.node.args.posonlyargs + g.node.args.args][1:]
+            given = {}
+            for i_, a_ in enumerate(c.args):
+                if i_ < len(pos):
+                    given[pos[i_]] = a_
+            for k_ in c.keywords:
+                given[k_.arg] = k_.value
+
+            def is_none(e):
+                return e is None or (isinstance(e, ast.Constant) and e.value is None)
+            wrong = [q_ for q_ in sib if not is_none(given.get(q_))]
+            ok = not is_none(given.get(p_)) and not wrong
+            n += 1
+            ck.ob(rule, '%s|for args.%s|%s' % (nm, d, norm(c)[:50]), ok, mainf.loc(c),
+                  'the value of --%s goes to the parameter `%s`' % (d.replace('_', '-'), p_) if ok else
+                  'in the loop over --%s the call %s gives %s: the number is taken as the wrong quantity' % (
+                      d.replace('_', '-'), norm(c)[:60],
+                      ('a value to `%s`' % wrong[0]) if wrong else ('no value to `%s`' % p_)))
+    return n
+
+
 def run(ctx, ck):
     prog = ctx.program
     m = ctx.model
@@ -665,5 +725,8 @@ def run(ctx, ck):
     ck.rule('R-FRESH.solve-order', 'compute(): fill -> loads -> rhs -> solve, each exactly once on every path')
     from .C14 import check_solve_order
     check_solve_order(ctx, ck, rule='R-FRESH.solve-order')
+    # the value of an option named after a constructor parameter reaches that parameter
+    ck.rule('R-KIND.option-parameter', 'a value read from --<family>-<p> is handed to the parameter <p> of the load it creates, not to a sibling parameter')
+    ck.floor('load constructions bound to their option', check_option_parameter(ctx, ck), 4)
     ck.undecided += ['Bessel-function asymptote / closed-form wire impedance values',
                      'numerical equality of loaded and unloaded feed impedance']
